@@ -827,7 +827,7 @@ impl Property for C04 {
         report_of(case)
     }
     fn rule(&self) -> String {
-        "proptest-generated configuration (both window types, size 1-12 / duration 20-400 ms, threshold k/20 incl. 0 and 1, minimum calls unset/1-15, permitted 1-5, slow detection off / threshold 5-40 ms with rate k/10, default or custom classifier) and a sequential history of 0-60/400 ops over {call ok / ok-but-bad / error / ignored error with durations zero, short, just below / just above the slow threshold, long; advance by ms, wait-1..wait+2, window-1..window+2, long; force_open; force_closed; reset}; after every op state().await, state_sync(), is_open() and metrics().state must agree and equal the reference model (a set of worlds for: minimum-calls counted in-window vs since-clear, force_open while open restarting the wait or not, force_closed while closed clearing or not), and the inner service is entered iff the model admits. Non-trivial: a transition after more recorded calls than the window holds, or a reset/force op after recorded calls; distinct by hash of the case".into()
+        "proptest-generated configuration (both window types, size 1-12 / duration 20-400 ms, threshold k/20 incl. 0 and 1, minimum calls unset/1-15, permitted 1-5, slow detection off / threshold 5-40 ms with rate k/10, default or custom classifier) and a sequential history of 0-60/400 ops over {call ok / ok-but-bad / error / ignored error with durations zero, short, just below / just above the slow threshold, long; advance by ms, wait-1..wait+2, window-1..window+2, long; force_open; force_closed; reset}; after every op state().await, state_sync(), is_open() and metrics().state must agree and equal the reference model (a set of worlds for: minimum-calls counted in-window vs since-clear, force_open while open restarting the wait or not, force_closed while closed clearing or not), and the inner service is entered iff the model admits.Also generated: event listeners of every kind, and the same history driven through the service returned by with_fallback() (a rejected call then yields the fallback's response). Non-trivial: a transition after more recorded calls than the window holds, or a reset/force op after recorded calls; distinct by hash of the case".into()
     }
     fn assumptions(&self) -> Vec<String> {
         vec![
